@@ -28,6 +28,7 @@ type Exp struct {
 	Seq     uint64
 	Cur     []model.CurRes
 	NilBkt  bool // the bucket path does not resolve
+	NilDst  bool // the destination path of a move does not resolve
 }
 
 func (s *Sim) wr() string {
@@ -109,7 +110,7 @@ func (s *Sim) Apply(st *Step) Exp {
 	case "move":
 		if e.Err = s.wr(); e.Err == model.OK {
 			if s.Cur.At(Path(st.D)) == nil {
-				e.NilBkt = true
+				e.NilDst = true
 				return e
 			}
 			e.Err = model.MoveBucket(s.Cur, Path(st.P), BucketName(st.N), Path(st.D))
